@@ -1450,7 +1450,7 @@ Example ex_hyp_clamp_inc : let c := mkPwl 1 0 (-1) 2 BClamped BClamped [1; 1#2; 
   ~ (p_mono c <> 0%Z /\ p_conv c <> 0%Z) /\
   keypoint_outputs (pwl_project_col c [7; -3; 5; 1#3]) = [-1; -1; 2; 2].
 Proof. cbv zeta. cbn [p_mono p_conv p_min p_max p_cmin p_cmax p_lengths p_iters]. split; [valid_tac|]. repeat (split; [first [reflexivity|lia]|]).
-  split; [intros [_ H]; apply H; reflexivity|]. vm_compute. reflexivity. Qed.
+  vm_compute. reflexivity. Qed.
 Example ex_hyp_clamp_dec : let c := mkPwl (-1) 0 (-1) 2 BClamped BClamped [1; 1#2; 3] 2 in
   pwl_valid c 3 /\ p_conv c = 0%Z /\ (1 <= p_iters c)%nat /\ p_cmin c = BClamped /\ p_cmax c = BClamped /\ p_mono c = (-1)%Z /\
   keypoint_outputs (pwl_project_col c [7; -3; 5; 1#3]) = [2; -1; -1; -1].
